@@ -98,13 +98,14 @@ var lgTable = []lgEntry{
 	{Rule: "L1", Func: "tensor.(*Dense).Eq", Site: "$r.array.Eq(", Goal: "(!$r.RequiresIterator() && !%ot.RequiresIterator())", Props: []string{"C16", "C04"}, Why: "the array comparison pairs the two backing arrays position by position (finding 62)"},
 	{Rule: "L3", Func: "tensor.(*Dense).Eq", Site: "$r.array.Eq(", Goal: "$r.DataOrder().HasSameOrder(%ot.DataOrder())", Props: []string{"C16"}, Why: "the array comparison pairs the two backing arrays position by position: a row-major and a column-major tensor with the same contents differ in storage (finding 62)"},
 	{Rule: "L1", Func: "tensor.(*Dense).CopyTo", Site: "copyDense($other, $r)", Goal: "(($r.viewOf == 0) && ($other.viewOf == 0))", Props: []string{"C19", "C04"}, Why: "the storage-level copy fills the destination's whole backing array: neither side may be a view (a view's array is a window of its parent's)"},
+	{Rule: "L2", Func: "tensor.(*Dense).Inner", Site: ".Inner($r, $other)", Goal: "($other.Dtype() == $r.t)", Props: []string{"C09", "C20"}, Why: "the specialised engines read both backing arrays as their own element type: a float32 vector against a float64 vector is refused, not reinterpreted (finding 86)"},
 	{Rule: "L2", Func: "tensor.(*Dense).Inner", Site: ".Inner($r, $other)", Goal: "($other.DataSize() == $r.len())", Props: []string{"C09"}, Why: "the BLAS dot product walks both backing arrays with one length: the storage lengths must agree, not the logical sizes"},
 	{Rule: "L3", Func: "tensor.(*Dense).TensorMul", Site: "Dot(%doT, %doOther)", Goal: "%doOther.DataOrder().HasSameOrder(%doT.DataOrder())", OrStep: "orderOf(%doT.DataOrder())", Props: []string{"C09", "C16"}, Why: "both operands are flattened by Reshape, which follows each tensor's own data order: they must share one, or the second is copied into a tensor built in the first's order (finding 68b)"},
 	{Rule: "L2", Func: "tensor.(StdEng).Dot", Site: "$r.Inner(", Goal: "((%reuse == nil) && (%incr == nil))", Props: []string{"C09", "C07"}, Why: "the vector inner product is returned as a new scalar tensor: a reuse or increment destination would be silently ignored, so it is refused (finding 75)"},
 	{Rule: "L2", Func: "tensor.(StdEng).Dot", Site: ".TensorMul(", Goal: "(%incr == nil)", Props: []string{"C09", "C07"}, Why: "the rank >= 3 contraction builds its own result and only copies it into a reuse tensor: an increment destination would be silently ignored, so it is refused (finding 75)"},
 	{Rule: "L1", Func: "tensor.(StdEng).RepeatReuse", Site: "$r.denseRepeat(", Goal: "(%ok && $reuse.Shape().Eq(%newShape))", Props: []string{"C10", "C13"}, Why: "a reuse destination is accepted only when its shape is the computed result shape: the repeat fills it by the result's geometry, and the returned tensor must have the shape the shape-only calculator predicts"},
 	{Rule: "S21", Func: "tensor.(Shape).Concat", Site: "return ", NotAfter: "errors.", Goal: "(!(0 > $axis) && (!($axis >= $r.Dims()) || !($axis >= len($r))))", Props: []string{"C13", "C10"}, Why: "the concatenation axis is an axis of the operands: an axis equal to the rank is accepted by no execution path (denseConcat indexes the shape with it)"},
-	{Rule: "S21", Func: "tensor.(Shape).Repeat", Site: "$ret0 = tensor.Shape{", Goal: "(($axis == AllAxes) || $r.IsScalar())", Props: []string{"C13", "C10"}, Why: "the literal result shapes belong to the flattening request and to true scalars: a (1,1) or (1,1,1) operand has axes, keeps them and is repeated along the one asked for (IsScalarEquiv is not IsScalar)"},
+	{Rule: "S21", Func: "tensor.(Shape).Repeat", Site: "$ret0 = tensor.Shape{", Goal: "((($axis == AllAxes) || $r.IsScalar()) || (0 == len($r)))", Props: []string{"C13", "C10"}, Why: "the literal result shapes belong to the flattening request and to true scalars: a (1,1) or (1,1,1) operand has axes, keeps them and is repeated along the one asked for (IsScalarEquiv is not IsScalar)"},
 	// ---- mask inspection (C15) -----------------------------------------------------------------------
 	{Rule: "L1", Func: "tensor.doMaskAll", Site: "range %ts.mask", Goal: "(%ts.IsMasked() && (%ts.Size() == len(%ts.mask)))", Props: []string{"C15"}, Why: "the whole-mask fold is the fold over the tensor's elements only when the mask covers exactly those elements (a view's mask window is longer)"},
 	{Rule: "L1", Func: "tensor.doMaskAny", Site: "range %ts.mask", Goal: "(%ts.IsMasked() && (%ts.Size() == len(%ts.mask)))", Props: []string{"C15"}, Why: "the whole-mask fold is the fold over the tensor's elements only when the mask covers exactly those elements"},
@@ -113,6 +114,8 @@ var lgTable = []lgEntry{
 	// ---- native (zero-copy) conversions: windows of the raw backing array ------------------------
 	{Rule: "L1", Func: "native.checkNativeIterable", Site: "return nil", Goal: "(!$t.RequiresIterator() && !$t.F())", Props: []string{"C04", "C16"}, Why: "the native [][]T / [][][]T views are windows of the raw backing array: only a tensor that needs no iterator (not sliced with gaps, not lazily transposed, not masked) and is row-major may be converted"},
 	{Rule: "L1", Func: "native.checkNativeSelectable", Site: "return nil", Goal: "(!$t.RequiresIterator() && !$t.F())", Props: []string{"C04", "C16"}, Why: "native selection hands out windows of the raw backing array"},
+	{Rule: "F6", Func: "tensor.(*Dense).ReadNpy", Site: "$r.setShape(%shape...)", MustStep: "$r.AP.o = 0", Props: []string{"C14", "C16"}, Why: "a .npy file that is accepted is C-ordered: a receiver that was column-major before must not keep its order flag, or the decoded rows are addressed as columns (finding 87)"},
+	{Rule: "F6", Func: "tensor.(*Dense).ReadNpy", Site: "$r.setShape(%shape...)", MustStep: "$r.old.zero()", Props: []string{"C14", "C03"}, Why: "a pending lazy transpose of the receiver belongs to its previous contents: a later UT() would restore the stale shape (finding 87)"},
 	// ---- writers (C14) -------------------------------------------------------------------------------
 	{Rule: "L1", Func: "tensor.(*Dense).WriteNpy", Site: "for ($r.len() > %i)", Decides: []string{"$r.RequiresIterator()"}, Props: []string{"C14", "C16"}, Why: "the flat Get(i) loop emits storage order; .npy is declared C-ordered"},
 	{Rule: "L1", Func: "tensor.(*Dense).GobEncode", Site: ".Encode(&%data)", Decides: []string{"$r.IsMaterializable()"}, OrStep: ".Materialize()", Props: []string{"C14"}, Why: "a view's whole storage window is written under the view's shape: the decoder's sanity check rejects it"},
@@ -197,6 +200,7 @@ func LGuards(rc *RC, prop string) {
 		{"L3", "order agreement: a raw access that pairs the storage of two tensors, or assumes row-major storage, is conditioned on their data order"},
 		{"L4", "exporters into a row-major external format consult the tensor's data order"},
 		{"F5", "npy header: the rank-1 header form is used only for rank-1 tensors"},
+		{"F6", "decoding into a reused receiver: what the wire format does not carry (data order of a C-ordered .npy file, a pending lazy transpose) is reset before the decoded shape is installed"},
 		{"S21", "axis bounds of the shape calculators: every accepting path has established 0 <= axis < rank (the calculator fails exactly when the operation fails)"},
 		{"LB", "BLAS gateway: each trans flag / leading dimension is derived from a test of that operand's lazy-transpose state and data order on every path to the BLAS call"},
 	} {
